@@ -442,7 +442,7 @@ class Mov2(ThumbInstruction):
 
 class Mul(ThumbInstruction):
     """
-    mul Rn, Rdm
+    mul Rdm, Rn
 
     multiply Rn and Rm and store the result in Rd
     Rd and Rm are the same register.
@@ -450,7 +450,7 @@ class Mul(ThumbInstruction):
 
     rn = Operand("rn", LowArmRegister, read=True)
     rdm = Operand("rdm", LowArmRegister, read=True, write=True)
-    syntax = Syntax(["mul", " ", rn, ",", " ", rdm])
+    syntax = Syntax(["mul", " ", rdm, ",", " ", rn])
 
     def encode(self):
         tokens = self.get_tokens()
@@ -1181,8 +1181,7 @@ def pattern_shl32(context, tree, c0, c1):
 def pattern_mul32(context, tree, c0, c1):
     d = context.new_reg(LowArmRegister)
     context.move(d, c0)
-    # Attention: multiply takes the second argument as use and def:
-    context.emit(Mul(c1, d))
+    context.emit(Mul(d, c1))
     return d
 
 
@@ -1198,7 +1197,7 @@ def pattern_rem32(context, tree, c0, c1):
     d2 = context.new_reg(LowArmRegister)
     context.emit(Sdiv(d2, c0, c1))
     # Multiply result by divider:
-    context.emit(Mul(c1, d2))
+    context.emit(Mul(d2, c1))
 
     # Substract from divident:
     d = context.new_reg(LowArmRegister)
